@@ -57,7 +57,10 @@ def _block(rng):
     bad = None
     sigs = set()
     for c in range(lo, hi):
-        h = f(c)
+        try:
+            h = f(c)
+        except Exception:  # noqa: BLE001 - the property says the hash equals the client's value: an exception is a failure
+            h = -(2 ** 62)   # never a hash; differs from the formula below, so `bad` records this challenge
         vals.append(h)
         x = 11092003 - c
         md = ((c + 1) % 11 + 1) * 119
